@@ -5,6 +5,8 @@ pub mod ops_props;
 pub mod del_props;
 pub mod hdr_props;
 pub mod synth_props;
+pub mod cost_props;
+pub mod conc_props;
 
 use crate::runner::{Ctx, KnownFindings, Report};
 
@@ -31,5 +33,8 @@ pub fn registry() -> Vec<(&'static str, CheckFn, ReplayFn)> {
         ("C12", hdr_props::check_c12, hdr_props::replay_c12),
         ("C13", synth_props::check_c13, synth_props::replay_c13),
         ("C14", synth_props::check_c14, synth_props::replay_c14),
+        ("C16", conc_props::check_c16, conc_props::replay_c16),
+        ("C17", conc_props::check_c17, conc_props::replay_c17),
+        ("C18", cost_props::check_c18, cost_props::replay_c18),
     ]
 }
